@@ -84,11 +84,12 @@ def parse_url(url: str) -> ParsedURL:
     # Normalize path (default to '/')
     path = parsed.path if parsed.path else "/"
 
-    # Construct normalized URL
+    # Construct normalized URL (IP literals containing ':' must stay bracketed)
+    host = f"[{parsed.hostname}]" if ":" in parsed.hostname else parsed.hostname
     normalized = urlunparse(
         (
             "gemini",  # Always use 'gemini' scheme
-            f"{parsed.hostname}:{port}" if port != DEFAULT_PORT else parsed.hostname,
+            f"{host}:{port}" if port != DEFAULT_PORT else host,
             path,
             parsed.params,
             parsed.query,
